@@ -152,6 +152,23 @@ int main()
 			for (size_t i = 0; i < n; ++i) os << ull(b[i].h) << " " << b[i].id << " ";
 			printf("%s%s%s| %s\n", g_oob ? "OOB " : "", g_selfswap ? "SELFSWAP " : "", os.str().c_str(), trace_str().c_str());
 		}
+		else if (cmd == "BIGM")
+		{	// one FindPrehashed + GetBoundsPrehashed on a formula-defined array of n items (also computable by the model
+			// driver): BIGM n pos mode ; item i has id i/2, ids 3k and 3k+1 share the hash 3k * 2 * floor((2^64-1)/n)
+			static size_t cn = 0; static bool cquad = false; static std::vector<Item> cv; static std::vector<uint64_t> chs;
+			size_t n, pos; int mode; is >> n >> pos >> mode; bool quad = mode >= 10; mode %= 10;   // mode >= 10: hashes grow quadratically (interpolation misses)
+			if (cn != n || cquad != quad) { cn = n; cquad = quad; cv.assign(n + 2, Item{ 0x5555555555555555ull, -7, -7 }); chs.assign(n + 2, 0x5555555555555555ull);
+				ull step = quad ? (~0ull) / n / n : (~0ull) / n;
+				for (size_t i = 0; i < n; ++i) { ull id = i / 2, hid = id - (id % 3 == 1 ? 1 : 0); ull h = quad ? hid * 2 * (hid * 2) * step : hid * 2 * step; cv[i + 1] = Item{ h, (long long)id, (long long)i }; chs[i + 1] = h; } }
+			Item* b = cv.data() + 1; Item query = b[pos];
+			if (mode == 1) query.id = 1000000000000LL; if (mode == 2) { query.h += 1; query.id = 1000000000001LL; }
+			g_log.clear(); g_oob = false; g_base = b; g_query = &query; g_n = (long long)n; g_trace = true; g_coarse = false;
+			HashIt hit{ chs.data() + 1 };
+			auto r = HashSorter::FindPrehashed(b, n, hit, query, size_t(query.h), EQ());
+			auto bd = HashSorter::GetBoundsPrehashed(b, n, hit, query, size_t(query.h), EQ());
+			std::ostringstream os; os << (r.iterator - b) << " " << int(r.found) << " " << (bd.GetBegin() - b) << " " << (bd.GetEnd() - b);
+			print_res(os.str());
+		}
 		else if (cmd == "BIGFIND")
 		{	// arrays too large for a case line (pvGetStepCount = 3 needs >= 2^22 items): built here, checked here against
 			// std::lower_bound / a linear scan of the hash run.  BIGFIND n seed kind
